@@ -209,7 +209,8 @@ Dispatch(id, t) == IF ~mgr[id].on THEN <<>>
 StartW(id) == OnW(id, "startW", "startR") /\ UNCHANGED <<cfg, mgr, S, sched>>
 StartR(id) ==
   /\ pc[id] = "startR" /\ (id # "top" => MayGate)
-  /\ S' = ApplyAll(S, Dispatch(id, "start") \o (IF UR(id).graph /\ id # "top" /\ id # BranchGraph THEN <<>> ELSE <<[ev |-> "enter", u |-> id, in |-> InOf(id)]>>))
+  /\ S' = ApplyAll(S, Dispatch(id, "start") \o (IF UR(id).graph /\ id # "top" /\ id # BranchGraph THEN <<>> ELSE <<[ev |-> "enter", u |-> id, in |-> InOf(id)]>>)
+                      \o (IF id = BranchGraph /\ id # "top" /\ cfg.bsel = "fail" THEN <<[ev |-> "exit", u |-> id, out |-> "", fail |-> TRUE]>> ELSE <<>>))
   /\ pc' = [pc EXCEPT ![id] = "run"]
   /\ Rec(id, "startR")
   /\ UNCHANGED <<cfg, heap, na, mgr, lst>>
